@@ -245,6 +245,8 @@ def gen_mog_cases(rng, n):
                  n=float(rng.uniform(0.8, 6.0)), ellip=float(rng.uniform(0, 0.8)), theta=float(rng.uniform(0, np.pi)))
         what = ["hybrid-vs-fourier", "n-sigma", "interp-vs-direct"][k % 3]
         c = dict(N=N, psf=psf.tolist(), p=p, type=t, what=what, kind=str(rng.choice(["fourier", "hybrid"])))
+        if what == "n-sigma":
+            c["p"]["n"] = float(rng.uniform(1.0, 6.0))      # below n ≈ 1 the 15-component grid itself is the documented inaccuracy (C01's n < 0.8 exclusion)
         if what == "hybrid-vs-fourier":
             c["nprs"] = [0] + [int(x) for x in rng.choice(np.arange(1, 16), 3, replace=False)]
         if what == "interp-vs-direct":
@@ -262,7 +264,8 @@ def oracle_run(ctx, pcases, mcases):
     pres = RC.unchunk(run_children("c20", "pixel_child", [dict(cases=ch) for ch in RC.chunked(pcases, w)], x64=False, workers=w), len(pcases)) if pcases else []
     for c, r in zip(pcases, pres):
         for clause, msg in r["fails"]:
-            out.append(Violation(f"C20:pixel-{clause}", f"pixel renderer N={c['N']} os={c['os']} num_os={c['num_os']}: {msg}", dict(kind="pixel", case=c)))
+            sig = f"C20:pixel-{clause}" + (":num_os=3" if clause == "inside" and c["num_os"] == 3 else "")
+            out.append(Violation(sig, f"pixel renderer N={c['N']} os={c['os']} num_os={c['num_os']}: {msg}", dict(kind="pixel", case=c)))
     m32 = [c for c in mcases if c["what"] != "interp-vs-direct"]
     m64 = [c for c in mcases if c["what"] == "interp-vs-direct"]
     for group, x64 in ((m32, False), (m64, True)):
